@@ -51,7 +51,8 @@ Section SafetySteps.
               n_log (fst (handle_snapshot id m n0)) = n_log n \/
               (n_log (fst (handle_snapshot id m n0)) = m_ents m /\ n_commit n < m_index m)).
     { intros n0 Hl0 Hc0. unfold handle_snapshot.
-      destruct (m_index m <=? n_commit n0) eqn:E1; [left; exact Hl0|]. apply Nat.leb_gt in E1.
+      destruct ((m_index m <=? n_commit n0) || m_reject m) eqn:E1; [left; exact Hl0|].
+      apply orb_false_iff in E1 as [E1 _]. apply Nat.leb_gt in E1.
       destruct (term_at (n_log n0) (m_index m) =? m_logterm m).
       - destruct (commit_to (n_log n0) (n_commit n0) (m_index m)); left; exact Hl0.
       - right. cbn [fst n_log]. split; [reflexivity|lia]. }
